@@ -371,8 +371,8 @@ def run(a, res):
             t.join()
     finally:
         org.stop()
-    for e in errors:
-        res.harness_failure.append(e)
+    if errors:
+        raise RuntimeError("instance(s) failed:\n" + "\n".join(errors))
     res.count("origin_requests", org.count())
     if not a.replay_data:
         if totals["xhits"] < max(1, len(cases) // 10):
